@@ -1,3 +1,4 @@
+import Rspirv.Model.LoadBytes
 import Rspirv.Model.BuilderHand
 import Rspirv.Generated.Builder
 import Driver.Load
@@ -154,33 +155,11 @@ def moduleWords (m : Module Inst) : List Nat := Rspirv.Props.C15.assemble assemb
 /-- `dr::load_bytes`: the parser model feeding the loader model (a consumer that answers `error` when the loader
 rejects an instruction is modelled by stopping at the first loader error) -/
 def loadBytesModel (bytes : List Nat) : Except String (Module Inst) :=
-  let r := parse theTables (fun _ => .continue_) bytes
-  -- replay the delivered events into the loader; a loader error at instruction k means the real parse stops there
-  let rec feed (s : Option LState) : List Ev → Except String (Option LState)
-    | [] => .ok s
-    | .init :: t => feed s t
-    | .header h :: t => feed (some (LState.start h)) t
-    | .inst i :: t =>
-      match s with
-      | none => .error "internal"
-      | some st => match st.step theLTables i with
-        | .ok st' => feed (some st') t
-        | .error e => .error s!"ConsumerError:{showLErr e}"
-    | .fin :: t =>
-      match s with
-      | none => .error "internal"
-      | some st => match st.finalize with
-        | .ok _ => feed (some st) t
-        | .error e => .error s!"ConsumerError:{showLErr e}"
-  match feed none r.trace with
-  | .error e => .error e
-  | .ok s =>
-    match r.result with
-    | .ok _ => match s with
-      | some st => .ok st.module
-      | none => .error "internal"
-    | .err e => .error (showPErr e)
-    | .panic _ => .error "panic"
+  match loadBytes theTables theLTables bytes with
+  | .ok m => .ok m
+  | .error (.parse e) => .error (showPErr e)
+  | .error (.loader e) => .error s!"ConsumerError:{showLErr e}"
+  | .error (.panic _) => .error "panic"
 
 def respondBuildRt (ws : List String) : Option String :=
   match ws with
